@@ -27,10 +27,12 @@ enum OpCode : uint8_t {
   YIELD,       // let every other runnable thread go first (stay in user code)
   GUARD_REFRESH,  // guard = CreateEpochGuard() / GetProtectedEpochs().first while the guard is alive (a: 0/1)
   NOP,
+  GUARD2_NEW,  // a second, overlapping guard of the same thread (CreateEpochGuard) while the first is alive
+  GUARD2_END,  // destroys the second guard (before or after the first: nesting order is the generator's choice)
   kNumOps
 };
 inline const char *kOpName[] = {"GETID", "GETHB", "CHECKHB", "SPIN", "GUARD_NEW", "GUARD_MOVE", "GUARD_END", "CHECK_LIST",
-                                "READ_CUR", "READ_MIN", "FWD", "FWD_BULK", "YIELD", "GUARD_REFRESH", "NOP"};
+                                "READ_CUR", "READ_MIN", "FWD", "FWD_BULK", "YIELD", "GUARD_REFRESH", "NOP", "GUARD2_NEW", "GUARD2_END"};
 
 struct Op {
   uint8_t code = NOP;
@@ -155,6 +157,8 @@ struct Outcome {
   bool fwd_inside_getprotected = false; // a forward completed between two steps of a GetProtectedEpochs call
   bool node_retired_under_guard = false;
   int ids_issued = 0;
+  bool overlapping_guards = false;
+  int max_id = -1;  // largest thread ID handed out in this case
   int guards = 0;
   int forwards = 0;
   int skipped = 0;
